@@ -43,9 +43,14 @@ def lin(fn, n, depth=0):
     if n.k == 'SizeOfPackExpr' or (n.k == 'UnaryExprOrTypeTraitExpr'):
         return Lin(n.v) if n.v is not None else Lin(0, {'sizeof(' + n.text()[:30] + ')': 1})
     if n.k in REF_KINDS:
-        init = local_init(fn, n.n) if n.d.get('local') else None
+        init = local_init(fn, n.n, optional=True) if n.d.get('local') else None
         if init is not None and (init.v is not None):
             return Lin(init.v)
+        r = resolve_local(n)
+        if r is not None:
+            x = lin(fn, r, depth + 1)
+            if x is not None:
+                return x
         return Lin(0, {n.n: 1})
     b = as_binop(n)
     if b:
